@@ -56,7 +56,9 @@ RULE = ("part A: full product of {circle r; ellipse (rx, ry) with ratio <= 100 x
         "(generic table + nice table {0,1/4,1/2,3/4}^2), each run through to_mask('exact') and through the kernel "
         "entry point on the reference bounding box + 2-pixel rim (semi-axis 1000: kernel on 6x6 windows at 32 "
         "boundary points; whole grids through to_mask for 4 configurations in the thorough tier); one evaluation = "
-        "one pixel value compared with the Green's-theorem reference; a pixel is non-trivial when the boundary cuts "
+        "one pixel value compared with the reference (Green's theorem on every pixel for semi-axes <= 10.5 and in the "
+        "windows; for semi-axes >= 64 on every pixel within 1e-6 of the boundary, the others being 1/0 by the geometric "
+        "corner/nearest-point classification of the convex shape); a pixel is non-trivial when the boundary cuts "
         "it (not all corners inside and nearest point not outside, 0 < reference < 1), counted once per "
         "(configuration, ix, iy).  part B: circle/ellipse/rectangle/polygon configurations x generic phase x "
         "n in {1,2,4,8,16,32,64}, every pixel of every subpixel mask against the true overlap with the bound "
@@ -645,6 +647,8 @@ def finalize(total, tier, seed):
         total.extra['max_' + name] = v
     total.extra['max_abs_err'] = red.get('abs_err_conforming', 0.0)
     total.extra['tolerances'] = {'value': TOL, 'range_and_full': EPS, 'clearance': MARGIN}
+    total.extra['oracle_selftest_max_errors'] = {k: float(v) for k, v in sorted(PA.selftest().items())}
+    total.extra['oracle_selftests'] = int(total.extra.get('oracle_selftests', 0))
     # harness self-check: both tiers must have seen cut, covered and uncovered pixels for both shapes and vias
     for shape in ('circle', 'ellipse'):
         for via in ('to_mask', 'kernel', 'kernel_window'):
